@@ -29,6 +29,11 @@ type PathOpts struct {
 	Dedup   bool // sometimes hand over deduplicated attribute blocks
 	Unknown bool // sometimes unknown attributes / aggregator / atomic aggregate
 	RRAttrs bool // iBGP-learned paths sometimes carry ORIGINATOR_ID / CLUSTER_LIST already
+	// WellKnownMix: sometimes several well-known communities on one path, in either order and with a plain community
+	// before, between or behind them (a scan of the community list that stops at the first well-known community it
+	// meets decides such a path by its order). Draws from the PRNG only when set, so the streams of the checks
+	// that do not ask for it stay where they are.
+	WellKnownMix bool
 }
 
 // GenPath draws the attributes of a path with unique id `id` learned from src.
@@ -67,6 +72,10 @@ func GenPath(rng *rand.Rand, id uint32, src Src, o PathOpts) Attr {
 		a.Comms = []uint32{types.WellKnownCommunityNoAdvertise}
 	case 4:
 		a.Comms = []uint32{65000<<16 | 9, types.WellKnownCommunityNoExport}
+	}
+	if o.WellKnownMix && rng.IntN(8) == 0 {
+		ne, na, plain := uint32(types.WellKnownCommunityNoExport), uint32(types.WellKnownCommunityNoAdvertise), 65000<<16|uint32(5+rng.IntN(3))
+		a.Comms = [][]uint32{{ne, na}, {na, ne}, {plain, ne, na}, {ne, plain, na}, {na, plain, ne}, {ne, na, plain}}[rng.IntN(6)]
 	}
 	if rng.IntN(6) == 0 {
 		a.LComms = [][3]uint32{{65000, uint32(rng.IntN(3)), 7}}
